@@ -165,6 +165,17 @@ class Facts:
                     continue
                 return None
 
+        def mutex_of(n):
+            """the member mutex a lock_guard declaration locks (declaration id of the field), or None"""
+            if n.get("kind") == "MemberExpr" and "referencedMemberDecl" in n and "mutex" in n.get("type", {}).get("qualType", ""):
+                return n["referencedMemberDecl"]
+            for ch in n.get("inner", []):
+                if isinstance(ch, dict):
+                    r = mutex_of(ch)
+                    if r is not None:
+                        return r
+            return None
+
         def is_const_callee(n):
             t = n.get("type", {}).get("qualType", "")
             return t.rstrip().endswith("const") or ") const" in t
@@ -173,16 +184,19 @@ class Facts:
             k = n.get("kind")
             if k == "CompoundStmt":
                 nlocks = 0
+                mids = []
                 for ch in n.get("inner", []):
                     if ch.get("kind") == "DeclStmt" and any(
                             v.get("kind") == "VarDecl" and any(l in v.get("type", {}).get("qualType", "") for l in LOCKS)
                             for v in ch.get("inner", [])):
-                        out.append(("Lock",))
+                        mid = mutex_of(ch)
+                        out.append(("Lock", mid))
+                        mids.append(mid)
                         nlocks += 1
                         continue
                     visit(ch, False)
-                for _ in range(nlocks):
-                    out.append(("Unlock",))
+                for mid in reversed(mids):
+                    out.append(("Unlock", mid))
                 return
             if k == "ReturnStmt" and depth == 0 and ret_is_ref and n.get("inner"):
                 f = root_field(n["inner"][0])
@@ -279,6 +293,17 @@ def generate(repo="/repo"):
                     node = facts.find_method(b, m)
                     if node is not None:
                         acts[m], _ = facts.actions(cname, node)
+        # the lock-discipline theorem is about ONE mutex per object: the mutex most operations lock is the object's
+        # mutex; a lock_guard on any other mutex (e.g. a member shadowing the base-class mutex) protects nothing
+        counts = {}
+        for al in acts.values():
+            for a in al:
+                if a[0] == "Lock":
+                    counts[a[1]] = counts.get(a[1], 0) + 1
+        primary = max(counts, key=counts.get) if counts else None
+        for m in list(acts):
+            acts[m] = [((a[0],) if a[0] in ("Lock", "Unlock") else a) for a in acts[m]
+                       if not (a[0] in ("Lock", "Unlock") and a[1] != primary)]
         per_class[cname] = (fields, acts)
     if errors:
         return None, errors, {}
